@@ -18,7 +18,7 @@ def atomic_begin(ctx, rule='C04.atomic-begin'):
     L = c09.locks_of(ctx)
     lr = L.info(bf, {wp: False})
     lw = L.info(bf, {wp: True})
-    reach_hdr = {g for g in F.fns if hdr in F.reachable_fns([g])}
+    reach_hdr = {g for g in F.fns if hdr in F.reachable_fns([g])} | set(getattr(ctx.A, 'hdr_helpers', ()))
     Rm = [bb for bb, t, target, c in F.call_sites(bf) if bb in lr.reach and target is not None and target in reach_hdr]
     _, hs, _ = c03.registry_holders(ctx, bf, {wp: False})
     Rp = [bb for bb, t, n, m in c03.registry_calls(ctx, bf, hs) if m and n in ('push', 'insert') and bb in lr.reach]
@@ -94,7 +94,7 @@ def map_covers_snapshot(ctx, rule='C04.map-covers-snapshot'):
         h = {n for (n, m) in lz.held_must_at(bb) if m == 'X' and n != 'data'}
         a_locks = h if a_locks is None else (a_locks & h)
     A = bool(a_locks & kept)
-    reach_hdr = {g for g in F.fns if hdr in F.reachable_fns([g])}
+    reach_hdr = {g for g in F.fns if hdr in F.reachable_fns([g])} | set(getattr(ctx.A, 'hdr_helpers', ()))
     Rm = [bb for bb, t, target, c in F.call_sites(bf) if bb in lr.reach and target is not None and target in reach_hdr]
     clones = [bb for bb, t, c in calls_named(F, bf, 'Clone::clone') if 'Arc<memmap2::Mmap>' in (c.get('self_ty') or '') and bb in lr.reach]
     f = floor(rule, 'map clones on the reader begin path', len(clones), 1) or floor(rule, 'header reads on the reader begin path', len(Rm), 1)
